@@ -61,7 +61,11 @@ def load_config_toml(
             f.write(_comment_out_toml(default_config))
         config_toml = dict()
 
-    config = _merge(default_config_toml, config_toml)
+    # Merge plain dicts rather than tomlkit's format-preserving containers, which restrict
+    # what can be assigned where (e.g. an inline table cannot take a sub-table)
+    if isinstance(config_toml, tomlkit.TOMLDocument):
+        config_toml = config_toml.unwrap()
+    config = _merge(default_config_toml.unwrap(), config_toml)
 
     return config
 
